@@ -17,12 +17,14 @@ import (
 
 // WorkerInit is sent once on the worker's command line (as a JSON file).
 type WorkerInit struct {
-	Overlay   map[string]string `json:"overlay"` // virtual -> real
-	Patterns  []string          `json:"patterns"`
-	TimeoutMs int               `json:"timeout_ms"`
-	MaxInstrs int64             `json:"max_instrs"`
-	OpenKnown []string          `json:"open_known"`
-	Solver    string            `json:"solver"`
+	Overlay     map[string]string `json:"overlay"` // virtual -> real
+	Patterns    []string          `json:"patterns"`
+	TimeoutMs   int               `json:"timeout_ms"`
+	StandaloneS int               `json:"standalone_s"`
+	WorkDir     string            `json:"work_dir"`
+	MaxInstrs   int64             `json:"max_instrs"`
+	OpenKnown   []string          `json:"open_known"`
+	Solver      string            `json:"solver"`
 }
 
 type Job struct {
@@ -131,6 +133,12 @@ func workerMain(initFile string) {
 	}
 	if wi.Solver != "" {
 		interp.SolverBin = wi.Solver
+	}
+	if wi.StandaloneS > 0 {
+		interp.StandaloneTimeoutS = wi.StandaloneS
+	}
+	if wi.WorkDir != "" {
+		interp.StandaloneDir = wi.WorkDir
 	}
 	t0 := nowMs()
 	prog, by, npk, err := loadProgram(&wi)
